@@ -19,6 +19,11 @@ func vPopulate(fs FS, n int) {
 		_ = fs.MkDir(d)
 		_ = fs.WriteFile(d+"/f"+string(rune('0'+i)), []byte("data"), 0o644)
 	}
+	// a wide, flat directory: loops over plain files of one directory must consult the context too
+	_ = fs.MkDir("/wide")
+	for i := 0; i < 6*n; i++ {
+		_ = fs.WriteFile("/wide/w"+string(rune('a'+i/26))+string(rune('a'+i%26)), []byte("w"), 0o644)
+	}
 	_ = fs.WriteFile("/single", []byte("single"), 0o644)
 	_ = fs.WriteFile("/a.zip", vBuildZip([]vEntry{{name: "x", content: []byte("x"), declared: -1}, {name: "y/z", content: []byte("z"), declared: -1}}), 0o644)
 	// an archive that is mostly directory entries (they take a different path through unzip)
@@ -30,7 +35,7 @@ func vPopulate(fs FS, n int) {
 	_ = fs.WriteFile("/dirs.zip", vBuildZip(dirs), 0o644)
 }
 
-const vNumCtxOps = 32
+const vNumCtxOps = 40
 
 // vCtxOp invokes the k-th context-accepting entry point.
 func vCtxOp(ctx context.Context, fs FS, k int) error {
@@ -102,6 +107,24 @@ func vCtxOp(ctx context.Context, fs FS, k int) error {
 		_, err = fs.UnzipWithContextAndLimits(ctx, "/a.zip", "/unz2", DefaultLimits())
 	case 31:
 		err = fs.WalkWithContextAndExclusionPatterns(ctx, "/r", func(string, os.FileInfo, error) error { return nil }, "zz")
+	// the same kinds of traversal over the wide, flat directory
+	case 32:
+		var l []string
+		err = fs.ListDirTreeWithContext(ctx, "/wide", &l)
+	case 33:
+		_, err = fs.LsRecursive(ctx, "/wide", true)
+	case 34:
+		err = fs.WalkWithContext(ctx, "/wide", func(string, os.FileInfo, error) error { return nil })
+	case 35:
+		err = fs.CleanDirWithContext(ctx, "/wide")
+	case 36:
+		err = fs.ChmodRecursively(ctx, "/wide", 0o700)
+	case 37:
+		err = fs.CopyWithContext(ctx, "/wide", "/widecopy")
+	case 38:
+		err = fs.ZipWithContext(ctx, "/wide", "/wide.zip")
+	case 39:
+		err = fs.GarbageCollectWithContext(ctx, "/wide", time.Nanosecond)
 	}
 	return err
 }
@@ -146,7 +169,7 @@ func VerifC09_MidRun() {
 	rec.reset()
 	ctx, cancel := context.WithCancel(context.Background())
 	defer cancel()
-	ops := []int{0, 2, 4, 5, 9, 11, 16, 17, 19, 20, 21, 22, 23, 24, 26, 27, 29}
+	ops := []int{0, 2, 4, 5, 9, 11, 16, 17, 19, 20, 21, 22, 23, 24, 26, 27, 29, 32, 33, 34, 35, 36, 37, 38, 39}
 	k := ops[verif.Choice("op", len(ops))]
 	cancelAfter := verif.Len("cancelAfter", 1, 12)
 	count := 0
